@@ -32,6 +32,15 @@ def install_clock(interp, names=("time.monotonic",)):
 
     for n in names:
         interp.ext_models[n] = monotonic
+
+    def wall(it, args, kwargs, node):
+        # wall-clock sources can jump arbitrarily: a fresh unconstrained reading every time
+        g = it.path.ghost
+        g["wall_clock_reads"] = g.get("wall_clock_reads", 0) + 1
+        return Sym(z3.Real(fresh_name("wall")), "real")
+
+    for n in ("time.time", "time.perf_counter", "time.process_time", "time.time_ns"):
+        interp.ext_models.setdefault(n, wall)
     trusted("time.monotonic", "A3: non-decreasing; each call returns some value >= the previous reading")
 
 
